@@ -39,6 +39,7 @@ from .values import (
     CallbackVal,
     DObj,
     ElemRef,
+    ExtObj,
     Func,
     IntSeq,
     LObj,
@@ -375,6 +376,8 @@ def call_method(ex, recv, name, args, kwargs, node=None):
             return dict_method(ex, recv, ho, name, args, kwargs)
         if isinstance(ho, MObj):
             return map_method(ex, recv, ho, name, args, kwargs)
+        if isinstance(ho, ExtObj):
+            return ho.ext_method(ex, recv, name, args, kwargs)
     if isinstance(recv, (Sym, bytes, bytearray)) and ex.kind_of(recv) == 'bytes':
         return bytes_method(ex, recv, name, args, kwargs)
     if isinstance(recv, Sym) and recv.k in ('int', 'bool'):
@@ -411,6 +414,13 @@ def bytes_method(ex, recv, name, args, kwargs):
     if name == 'join':
         items = ex.concrete_iter(args[0])
         if items is None:
+            seq = ex.as_symseq(args[0])
+            if seq is not None and seq.k == ('seq', 'bytes'):
+                # join over a symbolic-length list of byte strings: an uninterpreted pure function of
+                # (separator, list) -- only determinism is known about the result
+                ex.abstraction_used = True
+                jf = z3.Function('pyvc_bytes_join', IntSeq, z3.SeqSort(IntSeq), IntSeq)
+                return mk_bytes(jf(zbytes(ex.as_bytes_value(recv)), seq.t))
             raise Unsupported('join over symbolic iterable')
         parts = []
         sep = ex.as_bytes_value(recv)
